@@ -269,6 +269,17 @@ class AtomicTracker(ConstTracker):
                 # the mutation of an earlier round
                 return extra | {("again", m[0], n.id)}
         elif k == "ReturnStmt":
+            if n.kids and n.kids[0].strip().k == "CallExpr":
+                # `return g(...)`: the failure of g is the failure of this call
+                call = n.kids[0].strip()
+                g = self.P.resolve_call(call, self.fn)
+                if g is not None and failure_value_kind(g) == self.kind and self.usage_fail(g) and self.delegated(call):
+                    cm = call_mutation(self.P, self.fn, self.roots, call, self.MS, ints)
+                    r_ = cm[0] if cm is not None else None
+                    for x in list(extra):
+                        if x[0] == "mut" and x[2] != call.id and (r_ is None or x[1] == r_):
+                            self.nrefusals += 1
+                            self.violations.setdefault(x[1], (self.fn.by_id.get(x[2]), call, ctx.trace()))
             pend = [x for x in extra if x[0] == "refused"]
             if pend and n.kids:
                 e = n.kids[0].strip()
@@ -282,6 +293,55 @@ class AtomicTracker(ConstTracker):
                     for (_, r, mid, rid) in pend:
                         self.violations.setdefault(r, (self.fn.by_id.get(mid), self.fn.by_id.get(rid), ctx.trace()))
         return extra
+
+    def own_arguments(self, call):
+        """does the call pass on something of this function's own plain arguments (a scalar parameter, a non-object
+        member of a by-value argument structure), directly or through single-definition locals?  Values read out of
+        another object (vdip_in->vdi_filetype) are not the caller's arguments: a callee cannot refuse them unless that
+        object is already invalid."""
+        objs = set(self.roots.params) | set(self.roots.carriers)
+        plain = {p["decl"] for p in self.fn.params} - set(self.roots.params)
+
+        def visit(e, depth=0):
+            for m in e.walk():
+                if m.k == "DeclRefExpr":
+                    if m.refdecl in plain and m.refdecl not in self.roots.carriers:
+                        return True
+                    if m.refdecl in self.roots.carriers:
+                        par = m.parent
+                        while par is not None and par.k in ("ParenExpr", "ImplicitCastExpr"):
+                            par = par.parent
+                        t = (par.ctype or "").replace("const", "").replace(" ", "") if par is not None else ""
+                        if par is not None and par.k == "MemberExpr" and t not in OBJ_CANON:
+                            return True
+                    if m.refkind == "local" and depth < 4:
+                        d = self.cn.single_def(m.refdecl)
+                        if d is not None and visit(d, depth + 1):
+                            return True
+            return False
+        for a in call.args():
+            if self.roots.root(a) is not None and a.strip().k in ("DeclRefExpr",):
+                continue
+            if visit(a):
+                return True
+        return False
+
+    def delegated(self, call):
+        """the plain parameters handed to the call have not been examined by this function itself (no condition in front
+        of the call mentions them): their validation is delegated to the callee, so the callee's refusal is this
+        function's argument refusal.  A function that has switched on / compared the value before has validated it and
+        the callee can then only fail for resources."""
+        plain = {p["decl"] for p in self.fn.params} - set(self.roots.params) - set(self.roots.carriers)
+        passed = {m.refdecl for a in call.args() for m in a.walk() if m.k == "DeclRefExpr" and m.refdecl in plain}
+        if not passed:
+            return False
+        for n in self.fn.walk():
+            if n.k in ("IfStmt", "SwitchStmt", "ConditionalOperator", "WhileStmt", "ForStmt") and n.line < call.line:
+                kids = [z for z in n.kids if z is not None]
+                c = kids[0] if n.k != "ForStmt" else (n.kids[2] if n.kids[2] is not None else None)
+                if c is not None and any(m.k == "DeclRefExpr" and m.refdecl in passed for m in c.walk()):
+                    return False
+        return True
 
     def _refuse(self, extra, n, ctx):
         self.nrefusals += 1
@@ -318,7 +378,10 @@ class AtomicTracker(ConstTracker):
                     # only a pure checker's refusal is the caller's argument refusal; a callee that itself
                     # modifies the object fails "later in the work" and is judged inside that callee
                     cm = call_mutation(self.P, self.fn, self.roots, call, self.MS, ints)
-                    if cm is None or ("again", cm[0], call.id) in extra:
+                    if cm is None or (("again", cm[0], call.id) in extra and self.own_arguments(call)) or \
+                            (any(x[0] == "mut" and x[1] == cm[0] and x[2] != call.id for x in extra) and self.delegated(call)):
+                        # ... unless this function has itself modified the object before (vnadata_init empties the
+                        # object, then lets vnadata_resize validate the arguments)
                         return self._refuse(extra, call, ctx)
         return extra
 
